@@ -155,6 +155,64 @@ func init() {
 		"(*regexp.Regexp).FindString":         intrFindString,
 		"(*regexp.Regexp).FindStringSubmatch": intrFindStringSubmatch,
 		"(*regexp.Regexp).MatchString":        intrMatchString,
+		"(*regexp.Regexp).ReplaceAllString":   intrReplaceAllString,
+		"(*regexp.Regexp).ReplaceAllLiteralString": func(c *Ctx, a []Value) Value {
+			re, s, r := reArg(a[0]), strArg(a[1]), strArg(a[2])
+			if g, ok := s.Go(); ok {
+				if rg, ok := r.Go(); ok {
+					return Conc(re.re.ReplaceAllLiteralString(g, rg))
+				}
+			}
+			return replaceAllSym(c, re, s, r)
+		},
+		"(*regexp.Regexp).FindAllString": func(c *Ctx, a []Value) Value {
+			re, s := reArg(a[0]), strArg(a[1])
+			n, okN := a[2].(int64)
+			if g, ok := s.Go(); ok && okN {
+				var out []Str
+				for _, x := range re.re.FindAllString(g, int(n)) {
+					out = append(out, Conc(x))
+				}
+				if out == nil {
+					return Slice{}
+				}
+				return mkStrSlice(out)
+			}
+			c.Unsupported("regexp FindAllString on symbolic text")
+			return nil
+		},
+		"(*regexp.Regexp).Split": func(c *Ctx, a []Value) Value {
+			re, s := reArg(a[0]), strArg(a[1])
+			n, okN := a[2].(int64)
+			if g, ok := s.Go(); ok && okN {
+				var out []Str
+				for _, x := range re.re.Split(g, int(n)) {
+					out = append(out, Conc(x))
+				}
+				if out == nil {
+					return Slice{}
+				}
+				return mkStrSlice(out)
+			}
+			c.Unsupported("regexp Split on symbolic text")
+			return nil
+		},
+		"(*regexp.Regexp).FindStringIndex": func(c *Ctx, a []Value) Value {
+			re, s := reArg(a[0]), strArg(a[1])
+			if g, ok := s.Go(); ok {
+				loc := re.re.FindStringIndex(g)
+				if loc == nil {
+					return Slice{}
+				}
+				return Slice{Elems: []Value{int64(loc[0]), int64(loc[1])}}
+			}
+			found, m, _ := re.findSubmatch(c, s)
+			if !found {
+				return Slice{}
+			}
+			return Slice{Elems: []Value{int64(m.start), int64(m.end)}}
+		},
+		"(*regexp.Regexp).String": func(c *Ctx, a []Value) Value { return Conc(reArg(a[0]).src) },
 
 		"unicode.IsUpper": func(c *Ctx, a []Value) Value {
 			switch r := a[0].(type) {
@@ -884,6 +942,40 @@ func intrFindStringSubmatch(c *Ctx, a []Value) Value {
 		}
 	}
 	return mkStrSlice(out)
+}
+
+func intrReplaceAllString(c *Ctx, a []Value) Value {
+	re, s, r := reArg(a[0]), strArg(a[1]), strArg(a[2])
+	if g, ok := s.Go(); ok {
+		if rg, ok := r.Go(); ok {
+			return Conc(re.re.ReplaceAllString(g, rg))
+		}
+	}
+	if rg, ok := r.Go(); !ok || strings.Contains(rg, "$") {
+		c.Unsupported("regexp ReplaceAllString with a template on symbolic text")
+	}
+	return replaceAllSym(c, re, s, r)
+}
+
+// replaceAllSym: leftmost-first replacement of every match in a text with symbolic bytes (the replacement is
+// literal). Patterns that can match the empty string are outside the model.
+func replaceAllSym(c *Ctx, re *HostRegexp, s Str, repl Str) Str {
+	if re.re.MatchString("") {
+		c.Unsupported("regexp replace with a pattern that matches the empty string on symbolic text")
+	}
+	var out []Str
+	rest := s
+	for guard := 0; guard < 4096; guard++ {
+		found, m, u := re.findSubmatch(c, rest)
+		if !found || m.end <= m.start {
+			out = append(out, rest)
+			return Concat(out...)
+		}
+		out = append(out, unitsStr(u[:m.start]), repl)
+		rest = unitsStr(u[m.end:])
+	}
+	c.Unsupported("regexp replace: too many matches")
+	return Str{}
 }
 
 func intrMatchString(c *Ctx, a []Value) Value {
